@@ -280,7 +280,29 @@ pub fn write_acl(entries: &[(u8, Vec<u64>)]) -> Vec<u8> {
             tw.u64(&TLVTag::Anonymous, *s).unwrap();
         }
         tw.end_container().unwrap();
-        tw.null(&TLVTag::Context(4)).unwrap();
+        if *privilege == 5 {
+            tw.null(&TLVTag::Context(4)).unwrap();
+        } else {
+            // targets of several shapes (three per entry at most): a cluster, a device type, cluster + endpoint
+            tw.start_array(&TLVTag::Context(4)).unwrap();
+            for (cl, ep, dt) in [(Some(0x28u32), None, None), (None, None, Some(0x16u32)), (Some(0x1F), Some(0u16), None)] {
+                tw.start_struct(&TLVTag::Anonymous).unwrap();
+                match cl {
+                    Some(c) => tw.u32(&TLVTag::Context(0), c).unwrap(),
+                    None => tw.null(&TLVTag::Context(0)).unwrap(),
+                }
+                match ep {
+                    Some(e) => tw.u16(&TLVTag::Context(1), e).unwrap(),
+                    None => tw.null(&TLVTag::Context(1)).unwrap(),
+                }
+                match dt {
+                    Some(d) => tw.u32(&TLVTag::Context(2), d).unwrap(),
+                    None => tw.null(&TLVTag::Context(2)).unwrap(),
+                }
+                tw.end_container().unwrap();
+            }
+            tw.end_container().unwrap();
+        }
         tw.end_container().unwrap();
     }
     tw.end_container().unwrap();
